@@ -338,7 +338,7 @@ func runC16(c *fw.Case) {
 				ext = ".cacnk"
 			}
 			cands := []string{"README", filepath.Join(id[:4], "notes.txt"), filepath.Join("zz", id[:10]), id[:64] + ".bak",
-				filepath.Join(wrongDir(id), id+ext),                                   // wrong directory
+				filepath.Join(wrongDir(id), id+ext),                             // wrong directory
 				filepath.Join(strings.ToUpper(id[:4]), strings.ToUpper(id)+ext), // upper-case hex
 				id + ext,                             // directly in the base directory
 				filepath.Join(id[:4], "sub", id+ext), // nested deeper
